@@ -1,6 +1,8 @@
 //! Passthrough-filesystem monitors: C05 C06 C08 C09 C15 C16 C18 (and the stack half of C12).
+mod c15;
 mod c18;
 mod env;
+mod kc;
 
 use vkit::run::{Args, Report};
 
@@ -9,6 +11,7 @@ fn main() {
     let mut rep = Report::new(&args);
     vkit::xport::install_panic_hook();
     match args.prop.as_str() {
+        "C15" => c15::run(&args, &mut rep),
         "C18" => c18::run(&args, &mut rep),
         other => {
             eprintln!("ptfs: unknown property {}", other);
